@@ -1,6 +1,146 @@
-From GS Require Import Base.Bytes Model.Series Proofs.Series.
-Local Open Scope N_scope.
+(* C07 — merging batches is independent of order and grouping.
 
-Theorem C07_tmp_bucket_range : forall name key n, n <> 0 -> bucket name key n < n.
-Proof. exact bucket_range. Qed.
-Print Assumptions C07_tmp_bucket_range.
+   Vocabulary (Model/MetricMap.v, Model/Content.v):
+     merge a b, receive m d, merge_maps ms     the model of MetricMap.Merge / Receive / MergeMaps
+     singleton d = receive empty_map d         the batch holding one datapoint
+     mtree := Leaf m | Node l r | Recv t d     any bracketing / order of pairwise merges, and
+                                               Receive of a datapoint into an intermediate result
+     eval t                                    the map the tree computes
+     leaves t                                  its batches, left to right (Recv t d adds [singleton d])
+     series_at fld ms k                        the entries the maps ms hold for series k in field fld
+     merged_as ok hs r                         r exists iff hs is non-empty, and then [ok hs r]
+     abs m : gmap skey content                 per series: counter total, multiset of timer values,
+                                               sampled-count sum (Qc), set members;  ⊕ₘ adds them
+   "Same batches in another order / grouping" is [leaves t1 ≡ₚ leaves t2] (Permutation). *)
+From stdpp Require Import gmap gmultiset.
+From Coq Require Import QArith Qcanon.
+From GS Require Import Base.Bytes Base.LTS Model.Lexer Model.Series Model.MetricMap Model.Content
+  Proofs.MetricMapMerge Proofs.MetricMapMergeTree.
+
+(* ---- the reusable homomorphism (C01, C10, C11, C15) ---- *)
+Theorem C07_abs_merge : ∀ a b, abs (merge a b) = abs a ⊕ₘ abs b.
+Proof. exact abs_merge. Qed.
+Print Assumptions C07_abs_merge.
+
+Theorem C07_abs_receive : ∀ m d, abs (receive m d) = abs m ⊕ₘ abs_dp d.
+Proof. exact abs_receive. Qed.
+Print Assumptions C07_abs_receive.
+
+Theorem C07_content : ∀ t1 t2, leaves t1 ≡ₚ leaves t2 → abs (eval t1) = abs (eval t2).
+Proof. exact abs_eval_perm. Qed.
+Print Assumptions C07_content.
+
+(* ---- counters add ---- *)
+Theorem C07_counters : ∀ t1 t2 k, leaves t1 ≡ₚ leaves t2 →
+  c_val <$> counters (eval t1) !! k = c_val <$> counters (eval t2) !! k.
+Proof. exact tree_counter_value_perm. Qed.
+Print Assumptions C07_counters.
+
+Theorem C07_counters_add : ∀ t k,
+  merged_as (λ hs c, c_val c = zsum (c_val <$> hs))
+    (series_at counters (leaves t) k) (counters (eval t) !! k).
+Proof. exact tree_counter_value. Qed.
+Print Assumptions C07_counters_add.
+
+(* ---- timers: multiset union of the values, sampled counts added ---- *)
+Theorem C07_timers : ∀ t1 t2 k, leaves t1 ≡ₚ leaves t2 →
+  match timers (eval t1) !! k, timers (eval t2) !! k with
+  | Some a, Some b => t_vals a ≡ₚ t_vals b ∧ t_samp a = t_samp b
+  | None, None => True
+  | _, _ => False
+  end.
+Proof. exact tree_timer_perm. Qed.
+Print Assumptions C07_timers.
+
+Theorem C07_timers_union : ∀ t k,
+  merged_as (λ hs r, t_vals r ≡ₚ concat (t_vals <$> hs) ∧ t_samp r = qsum (t_samp <$> hs))
+    (series_at timers (leaves t) k) (timers (eval t) !! k).
+Proof. exact tree_timer_spec. Qed.
+Print Assumptions C07_timers_union.
+
+(* ---- sets unite ---- *)
+Theorem C07_sets : ∀ t1 t2 k, leaves t1 ≡ₚ leaves t2 →
+  s_vals <$> sets (eval t1) !! k = s_vals <$> sets (eval t2) !! k.
+Proof. exact tree_set_perm. Qed.
+Print Assumptions C07_sets.
+
+Theorem C07_sets_union : ∀ t k,
+  merged_as (λ hs r, s_vals r = ⋃ (s_vals <$> hs)) (series_at sets (leaves t) k) (sets (eval t) !! k).
+Proof. exact tree_set_spec. Qed.
+Print Assumptions C07_sets_union.
+
+(* ---- every series (of each of the four types) keeps the newest timestamp seen ----
+   is_newest xs r :=  match r with Some ts => In (Some ts) xs ∧ ∀ ts', In (Some ts') xs → ts' ≤ ts
+                                 | None => ∀ x, In x xs → x = None end *)
+Theorem C07_timestamps : ∀ t ty k,
+  is_newest ((λ m, ts_at ty m k) <$> leaves t) (ts_at ty (eval t) k).
+Proof. exact tree_timestamps. Qed.
+Print Assumptions C07_timestamps.
+
+Theorem C07_timestamps_order : ∀ t1 t2 ty k, leaves t1 ≡ₚ leaves t2 →
+  ts_at ty (eval t1) k = ts_at ty (eval t2) k.
+Proof. exact tree_timestamps_perm. Qed.
+Print Assumptions C07_timestamps_order.
+
+(* ---- a gauge ends with the value of a datapoint carrying the newest timestamp ----
+   gauge_newest ms k r := match r with
+     | Some g => (∃ m g', In m ms ∧ gauges m !! k = Some g' ∧ g_ts g' = g_ts g ∧ g_val g' = g_val g)
+                 ∧ (∀ m g', In m ms → gauges m !! k = Some g' → g_ts g' ≤ g_ts g)
+     | None => ∀ m, In m ms → gauges m !! k = None end *)
+Theorem C07_gauges : ∀ t k, gauge_newest (leaves t) k (gauges (eval t) !! k).
+Proof. exact tree_gauges. Qed.
+Print Assumptions C07_gauges.
+
+(* two orders: same timestamp; same value unless two batches tie for the newest timestamp with
+   different values (the only freedom the property leaves) *)
+Theorem C07_gauges_order : ∀ t1 t2 k, leaves t1 ≡ₚ leaves t2 →
+  match gauges (eval t1) !! k, gauges (eval t2) !! k with
+  | Some g1, Some g2 =>
+      g_ts g1 = g_ts g2 ∧
+      ((∀ m m' a b, In m (leaves t1) → In m' (leaves t1) → gauges m !! k = Some a →
+          gauges m' !! k = Some b → g_ts a = g_ts b → g_val a = g_val b) → g_val g1 = g_val g2)
+  | None, None => True
+  | _, _ => False
+  end.
+Proof. exact tree_gauges_perm. Qed.
+Print Assumptions C07_gauges_order.
+
+(* ---- Receive is Merge of the one-datapoint batch, except who wins a gauge tie ---- *)
+Theorem C07_receive_is_merge : ∀ m d,
+  counters (receive m d) = counters (merge m (singleton d)) ∧
+  timers (receive m d) = timers (merge m (singleton d)) ∧
+  sets (receive m d) = sets (merge m (singleton d)) ∧
+  ∀ k, match gauges (receive m d) !! k, gauges (merge m (singleton d)) !! k with
+       | Some g1, Some g2 =>
+           g_ts g1 = g_ts g2 ∧ g_src g1 = g_src g2 ∧ g_tags g1 = g_tags g2 ∧
+           (g_val g1 = g_val g2 ∨
+            ∃ g, gauges m !! k = Some g ∧ dp_type d = Gauge ∧ dp_key d = k ∧ g_ts g = dp_ts d ∧
+                 g_val g1 = dp_value d ∧ g_val g2 = g_val g)
+       | None, None => True
+       | _, _ => False
+       end.
+Proof. exact receive_vs_merge. Qed.
+Print Assumptions C07_receive_is_merge.
+
+(* ---- MergeMaps is one particular tree: left-nested over a fresh empty map ---- *)
+Theorem C07_merge_maps : ∀ ms,
+  eval (fold_left Node (Leaf <$> ms) (Leaf empty_map)) = merge_maps ms
+  ∧ leaves (fold_left Node (Leaf <$> ms) (Leaf empty_map)) = empty_map :: ms.
+Proof. exact merge_maps_is_tree. Qed.
+Print Assumptions C07_merge_maps.
+
+(* ---- consolidator: any assignment of batches / datapoint slices to the n slots, drained in
+   any order and passed to MergeMaps, is a merge tree over the delivered batches (plus the
+   n+1 empty maps the slots and MergeMaps start from) ---- *)
+Theorem C07_slots : ∀ n ops slots drained,
+  run slot_step (slots_init n) ops = Some slots → drained ≡ₚ slots →
+  ∃ t, eval t = merge_maps drained
+     ∧ leaves t ≡ₚ replicate (S n) empty_map ++ concat (slot_batches <$> ops).
+Proof. exact slots_tree. Qed.
+Print Assumptions C07_slots.
+
+Theorem C07_slots_content : ∀ n ops slots drained,
+  run slot_step (slots_init n) ops = Some slots → drained ≡ₚ slots →
+  abs (merge_maps drained) = cmap_sum (abs <$> concat (slot_batches <$> ops)).
+Proof. exact slots_content. Qed.
+Print Assumptions C07_slots_content.
